@@ -969,6 +969,16 @@ func (s *Session) Exec(op Op) (line string) {
 		cctp.NewAppModule(s.w.k).InitGenesis(cacheCtx, s.w.jsonCdc(), bz)
 		commit()
 		return "out=ok"
+	case "genesis-default":
+		// AppModuleBasic.DefaultGenesis (module.go) -> types.DefaultGenesis, through its JSON form
+		defer func() {
+			if r := recover(); r != nil {
+				line = "out=panic #msg=" + errMsg(fmt.Errorf("%v", r))
+			}
+		}()
+		var g types.GenesisState
+		s.w.jsonCdc().MustUnmarshalJSON((cctp.AppModuleBasic{}).DefaultGenesis(s.w.jsonCdc()), &g)
+		return "out=ok " + showGenesis(&g)
 	case "genesis-export":
 		defer func() {
 			if r := recover(); r != nil {
